@@ -464,6 +464,7 @@ func (ex *Exec) applyContract(st *State, fr *Frame, ct *Contract, fn *ssa.Functi
 		out = append(out, v)
 	}
 	post := ex.sigEnv(st, ct, fn, sig, args, res, st, pre)
+	post.unchanged = func() T { return ex.frameUnchanged(ex.modTargets(ev, ct.Modifies), st, pre) }
 	for _, e := range ct.Ensures {
 		st.assume(post.Bool(e.E))
 	}
@@ -1230,3 +1231,33 @@ func (ex *Exec) promotedView(st *State, v T, pt types.Type, target types.Type) (
 }
 
 func short0(site string) string { return site }
+
+// frameUnchanged: every location of the given frame holds in `now` the value it has in `before`.
+func (ex *Exec) frameUnchanged(targets []modTarget, now HeapView, before HeapView) T {
+	var cs []T
+	seen := map[string]bool{}
+	for _, t := range targets {
+		if t.all {
+			sfail("unchanged() with 'modifies *'")
+		}
+		if t.ref == nil {
+			if seen[t.heap] {
+				continue
+			}
+			seen[t.heap] = true
+			a, b := now.Heap(t.heap, t.sort), before.Heap(t.heap, t.sort)
+			if a.S != b.S {
+				cs = append(cs, Eq(a, b))
+			}
+			continue
+		}
+		a, b := Select(now.Heap(t.heap, t.sort), *t.ref), Select(before.Heap(t.heap, t.sort), *t.ref)
+		if a.S != b.S {
+			cs = append(cs, Eq(a, b))
+		}
+	}
+	if len(cs) == 0 {
+		return True
+	}
+	return And(cs...)
+}
